@@ -445,7 +445,8 @@ class SubRoutine(GlobalValue):
         for block in unreachable:
             # Important! Loop over successors first, since last instruction
             # determines the successors:
-            for successor in block.successors:
+            # (both targets of a conditional jump can be the same block)
+            for successor in dict.fromkeys(block.successors):
                 self.logger.debug("updating successor %s", successor)
                 for phi in successor.phis:
                     self.logger.debug("updating phi %s", phi)
@@ -1322,7 +1323,8 @@ class JumpBase(FinalInstruction):
         """Clear references"""
         while self._block_map:
             _, block = self._block_map.popitem()
-            block.references.remove(self)
+            # Both targets of a conditional jump can be the same block:
+            block.references.discard(self)
 
     @property
     def targets(self):
